@@ -21,7 +21,9 @@ EXPLANATION = (
     "FINITE-EXHAUSTIVE: _istoken's per-byte test and _VALID_URI's character class on all 256 byte values (the loop / the \\A CLASS+ \\Z shape make that exhaustive), both "
     "outcomes of the one predicate each _ensureValid* consults, emptiness classes of ChunkedEncoder.write (F24).  STRUCTURAL on the normalised view: every use of self.method / "
     "self.uri in Request._writeHeaders is the argument of its validator, no refusal can follow a transport write, the Host-count test decides every write, __init__ stores "
-    "validated values, the framing line of each _writeTo* is paired with its encoder class and writeTo dispatches on UNKNOWN_LENGTH.  BOUNDED second layer (clauses with bounded "
+    "validated values, the framing line of each _writeTo* is paired with its encoder class and writeTo dispatches on UNKNOWN_LENGTH; failure of the generation (HTTP11ClientProtocol.request): the errback of writeTo's Deferred aborts the connection on every path "
+    "while transmitting and leaves a state other than the accepting one (derived from request()'s entry guard), and the handler of an exception raised by writeTo itself hands a failed "
+    "Deferred to that same errback on every path (or aborts itself) and never restores the accepting state - sync and async failure paths agree.  BOUNDED second layer (clauses with bounded "
     "evidence only: exact head bytes, header-line format, chunk format, terminator-once, Content-Length accounting, head-before-body order): "
     "Every clause is decided by interpreting the repository's own functions (whitelisted evaluator over the AST; classes become model objects whose methods are "
     "the class's functions, nested functions are closures, Deferred/transport/producer are synchronous models; nothing is imported or executed) and comparing "
@@ -32,8 +34,9 @@ EXPLANATION = (
     "and NOTHING has been written; (d) writeTo over (caller headers) x (no body / known / unknown length) x method: the head announces exactly the framing of the "
     "encoder the body goes through; (e) scenarios through the body encoders: chunked b'ab', b'', b'cd' -> 2 CRLF ab CRLF 2 CRLF cd CRLF 0 CRLF CRLF exactly once "
     "(empty write not encoded: F24, fixed), no terminator when the producer fails, writes after the end refused; Content-Length: exact / short / excess / late "
-    "writes give success / WrongBodyLength / WrongBodyLength with the producer stopped and no excess byte forwarded / ExcessWrite. Not decided: parse-back by an "
-    "independent parser for arbitrary inputs."
+    "writes give success / WrongBodyLength / WrongBodyLength with the producer stopped and no excess byte forwarded / ExcessWrite. (f) body producers failing at several points (raising from startProducing before / after writing, errback at once / later; known length / chunked) "
+    "followed by a second request on the same protocol: once a byte of the failed request is on the wire no byte of another request follows, the caller gets "
+    "RequestGenerationFailed, the connection is aborted. Not decided: parse-back by an independent parser for arbitrary inputs."
 )
 RULE_KINDS = {
     "failure/aborts-connection": "structural", "failure/leaves-refusing-state": "structural", "failure/sync-agrees-with-async": "structural",
@@ -799,6 +802,14 @@ def _outcome_peek(d):
 
 
 MUTANTS = [
+    Mutant("sync-generation-failure-reopens-the-protocol", P, "        except BaseException:\n            _requestDeferred = fail()\n", "        except BaseException:\n            self._state = \"QUIESCENT\"\n            _requestDeferred = fail()\n",
+           expect_rule="failure/leaves-refusing-state"),
+    Mutant("sync-generation-failure-bypasses-the-errback", P, "        except BaseException:\n            _requestDeferred = fail()\n",
+           "        except BaseException:\n            self._state = \"GENERATION_FAILED\"\n            return fail(RequestGenerationFailed([Failure()]))\n", expect_rule="failure/"),
+    Mutant("generation-failure-does-not-abort", P, "                self._state = \"GENERATION_FAILED\"\n                self.transport.abortConnection()\n", "                self._state = \"GENERATION_FAILED\"\n",
+           expect_rule="failure/"),
+    Mutant("generation-failure-returns-to-quiescent", P, "                self._state = \"GENERATION_FAILED\"\n                self.transport.abortConnection()\n", "                self._state = \"QUIESCENT\"\n                self.transport.abortConnection()\n",
+           expect_rule="failure/leaves-refusing-state"),
     Mutant("framing-line-dropped-when-caller-set-a-length", P, "        if TEorCL is not None:\n            requestLines.append(TEorCL)", "        if TEorCL is not None and self.headers.getRawHeaders(b\"Content-Length\") is None:\n            requestLines.append(TEorCL)"),
     Mutant("revert-F24-empty-write-encoded", P,
            "        if data:\n            # A zero-length chunk is the end-of-body marker, so an empty write\n            # must not be encoded as a chunk.\n            self._writeChunk(data)\n",
@@ -831,6 +842,8 @@ MUTANTS = [
     Mutant("empty-header-values-dropped", P, "            requestLines.extend([name + b\": \" + v + b\"\\r\\n\" for v in values])", "            requestLines.extend([name + b\": \" + v + b\"\\r\\n\" for v in values if len(v) > 0])"),
 ]
 SILENT = [
+    Silent("sync-generation-failure-explicit-failure", P, "        except BaseException:\n            _requestDeferred = fail()\n", "        except BaseException:\n            _requestDeferred = fail(Failure())\n"),
+    Silent("generation-failure-aborts-before-recording-the-state", P, "                self._state = \"GENERATION_FAILED\"\n                self.transport.abortConnection()\n", "                self.transport.abortConnection()\n                self._state = \"GENERATION_FAILED\"\n"),
     Silent("validators-as-guard-clauses", P, "    if _istoken(method):\n        return method\n    raise ValueError(f\"Invalid method {method!r}\")", "    valid = _istoken(method)\n    if not valid:\n        raise ValueError(f\"Invalid method {method!r}\")\n    return method"),
     Silent("header-lines-by-nested-loop", P, "            requestLines.extend([name + b\": \" + v + b\"\\r\\n\" for v in values])", "            for oneValue in values:\n                requestLines.append(b\"\".join([name, b\": \", oneValue, b\"\\r\\n\"]))"),
     Silent("chunk-write-early-return-and-bytes-format", P,
